@@ -42,6 +42,8 @@ ANCHORS = [
     (SRC + "servers/misc.py", "build_lowlevel_stream_server_handler"),
     (SRC + "servers/misc.py", "build_lowlevel_datagram_server_handler"),
     (SRC + "lowlevel/api_async/servers/stream.py", "AsyncStreamServer.__client_coroutine"),
+    (SRC + "lowlevel/api_async/servers/stream.py", "_RequestReceiver.next"),
+    (SRC + "lowlevel/api_async/servers/stream.py", "_BufferedRequestReceiver.next"),
     (SRC + "lowlevel/api_async/servers/datagram.py", "AsyncDatagramServer.__client_coroutine"),
     (SRC + "lowlevel/api_async/servers/datagram.py", "AsyncDatagramServer.__client_coroutine_inner_loop"),
     (SRC + "lowlevel/api_async/servers/datagram.py", "AsyncDatagramServer.__on_client_coroutine_task_done"),
@@ -679,6 +681,42 @@ def _tr_udp_task(tree):
     return in_finally, marks_first
 
 
+def _tr_receivers(tree):
+    """_RequestReceiver.next / _BufferedRequestReceiver.next: is EVERY call of consumer.next() lexically inside a try
+    statement with an `except BaseException as exc: return ThrowAction(exc)` handler?"""
+    result = True
+    for cls in ("_RequestReceiver", "_BufferedRequestReceiver"):
+        fn = _find(tree, cls, "next")
+        where = f"stream.{cls}.next"
+        calls = []
+
+        def visit(node, protected):
+            if isinstance(node, ast.Try):
+                prot = protected or any(
+                    h.type is not None and ast.unparse(h.type) == "BaseException" and h.name and len(h.body) == 1
+                    and isinstance(h.body[0], ast.Return) and ast.unparse(h.body[0].value) == f"ThrowAction({h.name})"
+                    for h in node.handlers)
+                for ch in node.body:
+                    visit(ch, prot)
+                for h in node.handlers:
+                    for ch in h.body:
+                        visit(ch, protected)
+                for ch in node.orelse + node.finalbody:
+                    visit(ch, protected)
+                return
+            if isinstance(node, ast.Call) and ast.unparse(node.func) == "consumer.next":
+                calls.append(protected)
+            for ch in ast.iter_child_nodes(node):
+                visit(ch, protected)
+
+        for st in fn.body:
+            visit(st, False)
+        if not calls:
+            raise TranslateError(f"{where}: no consumer.next() call found")
+        result = result and all(calls)
+    return result
+
+
 def _b(x):
     return "true" if x else "false"
 
@@ -699,6 +737,7 @@ def _params():
     st_plain, st_tls, reraises = _tr_tcp_init(tcp)
     disc_layer, disc_after = _tr_misc_stream(_src(SRC + "servers/misc.py"), classes)
     close_first = _tr_stream_task(_src(SRC + "lowlevel/api_async/servers/stream.py"))
+    recv_protected = _tr_receivers(_src(SRC + "lowlevel/api_async/servers/stream.py"))
     listener = _tr_listener(_src(SRC + "lowlevel/api_async/backend/_asyncio/stream/listener.py"), classes)
     tls = _tr_tls(_src(SRC + "lowlevel/api_async/transports/tls.py"), classes)
     udp = _tr_udp_aexit(_src(SRC + "servers/async_udp.py"), classes)
@@ -741,6 +780,7 @@ def _params():
         f"Definition tcp_init_reraises : bool := {_b(reraises)}.",
         f"Definition misc_disconnect_after_connection : bool := {_b(disc_after)}.",
         f"Definition stream_close_pushed_first : bool := {_b(close_first)}.",
+        f"Definition receiver_next_protected : bool := {_b(recv_protected)}.",
         "Definition listener_connect : list layer :=\n  [" + listener + "].",
         "Definition tls_wrap : list layer :=\n  [" + tls + "].",
         "Definition udp_aexit : list mcase :=\n  " + udp + ".",
@@ -861,6 +901,14 @@ def _stream_handler(world):
                 req = yield
                 s.hooks.append(3)
                 raise s.exc1()
+            if s.pos == 10:
+                try:
+                    req = yield
+                except StreamProtocolParseError:
+                    s.hooks.append(5)
+                    if s.e1 == [0, 5]:
+                        raise
+                    raise s.exc1()
 
         async def on_disconnection(self, client):
             s = world.script
@@ -1017,7 +1065,10 @@ class World:
                 self.cctx.load_verify_locations(os.path.join(CERT_DIR, "c17_server.crt"))
                 kw = dict(ssl=sctx, ssl_handshake_timeout=1.0, ssl_shutdown_timeout=1.0)
             self.handler = _stream_handler(self)
-            self.server = AsyncTCPNetworkServer("127.0.0.1", 0, StreamProtocol(StringLineSerializer()), self.handler,
+            # plain world: copying receiver (_RequestReceiver); TLS world: buffer-filling one (_BufferedRequestReceiver)
+            from easynetwork.protocol import BufferedStreamProtocol
+            proto = BufferedStreamProtocol(StringLineSerializer()) if self.srv == 1 else StreamProtocol(StringLineSerializer())
+            self.server = AsyncTCPNetworkServer("127.0.0.1", 0, proto, self.handler,
                                                 logger=self.logger, **kw)
         up = asyncio.Event()
         self.task = asyncio.ensure_future(self.server.serve_forever(is_up_event=up))
@@ -1154,6 +1205,10 @@ class World:
             await self._send(f, b"x")
         elif pos == 5:
             await self._send(f, b"\xff\xfe")
+        elif pos == 10:
+            # a valid request and a malformed frame in ONE chunk: the second one is already buffered when handle() yields again
+            await self._send(f, b"x\n\xff\xfe")
+            await self._recv(f)
         elif pos in (7, 8, 9):
             await self._send(f, b"x")
             await self._recv(f)
@@ -1254,9 +1309,9 @@ def run_impl(inp):
 # ----------------------------------------------------------------------------------------------------------------
 # cases
 # ----------------------------------------------------------------------------------------------------------------
-TCP_POSITIONS = list(range(10))
+TCP_POSITIONS = list(range(11))
 UDP_POSITIONS = list(range(5))
-HARD_TCP_POS = {5, 6, 7, 8, 9}
+HARD_TCP_POS = {5, 6, 7, 8, 9, 10}
 HARD_UDP_POS = {2, 3, 4}
 
 
@@ -1318,7 +1373,7 @@ def cases(tier, rng, escalate):
     firsts = _naked() + [[1, [3, 0]], [1, [2]]] if thorough else [[0, 0], [0, 2], [0, 3], [0, 6], [1, [3, 0]]]
     seconds = excs if thorough else _naked() + [[1, [2]], [1, [3, 0]], [1, [2, 3]], [1, [0, 6]], [1, [4, 5, 1]]]
     for srv in (0, 1):
-        for pos in (3, 4, 5, 6, 7, 8):
+        for pos in (3, 4, 5, 6, 7, 8, 10):
             for e1 in firsts:
                 for e2 in seconds:
                     yield _case(srv, pos, e1, e2)
